@@ -189,12 +189,22 @@ CHECKS["C15"] = {
     "text": "Proof (Coq), quoting layer: for every byte string, the double-quoted form prov/dot.py builds (as repaired) is read "
             "by the Graphviz quoted-ID rule as exactly that string and ends at its closing quote, and html.escape output is "
             "accepted by the HTML-like text rule and denotes exactly that string — so no identifier, URI, label or value can "
-            "break the syntax or inject markup (C0 control characters: known finding C15-F1). The structure of the drawing is "
+            "break the syntax or inject markup (C0 control characters: known finding C15-F1). Structure of the drawing (Dotg.v): "
+            "the statements prov_to_dot adds to the main graph and to every cluster, in order — element nodes, generic nodes "
+            "with their inferred class, blank nodes, annotation nodes, edges with their labels, clusters with their URLs, with "
+            "the counters and the shared node_map of the Python code — are modelled and tied per run to the pydot object the "
+            "implementation builds (8 option combinations); proved: one element node per element record, of its kind, with its "
+            "URI, in order (C15_elements_one_node_each); a bundle's cluster carries its URI and holds exactly its elements "
+            "(C15_cluster_elements); a relation with two endpoints is one labelled edge, or two edges through one blank node, "
+            "between nodes of the endpoints' URIs (C15_relation_path); every further end of an n-ary relation has its labelled "
+            "edge to a node of its URI (C15_nary_further_ends). Labels, annotation rows, styles and Graphviz's acceptance are "
             "validated, not proved: every generated document x 7 (quick) / all 80 (thorough) option combinations goes through "
             "the real Graphviz (dot -Tdot_json): acceptance, rankdir, one labelled node per element in its bundle's cluster, "
-            "one direct or blank-node path per two-ended relation with the right URLs and direction, annotation rows (partial).",
+            "one direct or blank-node path per two-ended relation with the right URLs and direction, the fan of every n-ary "
+            "relation, annotation rows (partial).",
     "design_ref": "DESIGN.md §5 C15, §10",
-    "technique": "Coq proof of the two quoting layers + execution of every case through the real Graphviz with structural oracle",
+    "technique": "Coq proofs of the two quoting layers and of the drawing's structure over a model tied to the pydot graph + "
+                 "execution of every case through the real Graphviz with structural oracle",
 }
 
 CHECKS["C13"] = {
@@ -328,9 +338,8 @@ CHECKS["C06"]["text"] = CHECKS["C06"]["text"].replace(
     "length of the text (C06_fuel_suffices: that fuel is enough for the lexer on any text), as exactly the document's records in "
     "order under the table its declarations build; with bundles (C06_document_bundles, ProvnBundleProofs.v): every bundle's "
     "frame, declarations and record lines, one level deeper, are read as the bundle under the URI its identifier denotes with "
-    "the bundle's declarations in scope, after the document's records — for every document whose containers hold at least one "
-    "record and whose names the reader's table resolves. Containers without records and the documents of findings C06-F1..F3 "
-    "(partial):")
+    "the bundle's declarations in scope, after the document's records — for every document (containers may be empty) whose "
+    "names the reader's table resolves. The documents of findings C06-F1..F3 (partial):")
 CHECKS["C06"]["technique"] = ("Coq proofs (escape/unescape inversion; value-, record- and document-level printer -> spec lexer -> spec parser = "
                               "content) + extracted grammar-based reader executed on the implementation's text")
 CHECKS["C10"]["text"] = CHECKS["C10"]["text"].replace(
